@@ -5,6 +5,7 @@
   ./check all [--tier ...]                 run every property in sequence (summary table)
 """
 import importlib
+import hashlib
 import json
 import multiprocessing
 import os
@@ -129,15 +130,40 @@ def run_one(prop, tier, seed):
     known, fixed = findings.load_known()
     known = [k for k in known if k.fields.get("property") == prop]
     new_groups, known_hits = [], {}
+    # The exact set of leaves that violate inside the known classes was recorded per (property, tier, seed) on the tree the entries were written
+    # for (known_leaves/): a violation that matches a known entry but is NOT in that set is a new violation hiding in a known class.
+    rec_path = os.path.join(HERE, "known_leaves", "%s.%s.%d.txt" % (prop, tier, seed))
+    recording = bool(os.environ.get("VERIF_RECORD_KNOWN"))
+    recorded = None
+    if not recording and os.path.exists(rec_path):
+        recorded = set(l.strip() for l in open(rec_path) if l.strip())
+    to_record = set()
+    digest = lambda x: hashlib.sha1(repr((x.get("harness"), x.get("mode"), x.get("kind"), x.get("choices"))).encode()).hexdigest()[:10]
     for sig, vs in groups.items():
         v = vs[0]
         k = next((k for k in known if k.matches(v)), None)
+        if k is not None and recorded is not None:
+            fresh = [x for x in vs if digest(x) not in recorded]
+            if fresh:
+                for x in fresh:
+                    x["note"] = "matches a known-finding class but this leaf did not violate when the class was recorded"
+                new_groups.append((repr(sig) + "|outside-recorded-known-set", fresh))
+                vs = [x for x in vs if digest(x) in recorded]
+                if not vs:
+                    continue
+                v = vs[0]
         if k is not None:
+            if recording:
+                to_record.update(digest(x) for x in vs)
             k.hits += len(vs)
             known_hits.setdefault(k.line, (k, v, 0))
             known_hits[k.line] = (k, known_hits[k.line][1], known_hits[k.line][2] + len(vs))
         else:
             new_groups.append((sig, vs))
+    if recording:
+        os.makedirs(os.path.dirname(rec_path), exist_ok=True)
+        with open(rec_path, "w") as fh:
+            fh.write("\n".join(sorted(to_record)) + ("\n" if to_record else ""))
     unreproduced = 0
     confirmed = []
     if new_groups and hasattr(mod, "replay") and not os.environ.get("VERIF_NO_CONFIRM"):
